@@ -152,6 +152,9 @@ class Gen(object):
             return E("button", self.attrs("button", ["type", "name"]), self.phrasing(depth + 1, in_a=True))
         if k == 4:
             return E("label", self.attrs("label", ["for"]), self.phrasing(depth + 1, in_a=True, in_label=True))
+        if d.chance(1, 3):
+            # options outside select: datalist
+            return E("datalist", self.attrs("datalist"), self._ws_between([self.option() for _ in range(d.below(4))]))
         return E("output", self.attrs("output"), self.phrasing(depth + 1, in_a=True))
 
     def select(self):
@@ -296,10 +299,19 @@ class Gen(object):
         for _ in range(d.below(2)):
             cols = [E("col", self.attrs("col", ["span"])) for _ in range(d.below(3))]
             kids.append(E("colgroup", self.attrs("colgroup", ["span"]), self._ws_between(cols)))
+        rich = d.chance(1, 5)
+
+        def cell_content():
+            if rich:
+                # many DISTINCT element names inside the cells of one table (autonomous custom elements are conforming phrasing content)
+                k0 = d.below(8)
+                return [E(d.pick(["p", "div"]), [], [E("x-%s" % "abcdefghijklmnopqrstuvwxyz"[(k0 + i) % 26], [], [T(d.pick(["a", "b", " "]))]) for i in range(5 + d.below(12))])]
+            return self.flow(depth + 2, in_form)
+
         def rows(cell):
             out = []
-            for _ in range(d.below(3)):
-                cells = [E(d.pick([cell, "td", "th"]), self.attrs("td", ["colspan", "headers"]), self.flow(depth + 2, in_form)) for _ in range(d.below(3))]
+            for _ in range(d.below(3) + (1 if rich else 0)):
+                cells = [E(d.pick([cell, "td", "th"]), self.attrs("td", ["colspan", "headers"]), cell_content()) for _ in range(d.below(3) + (1 if rich else 0))]
                 out.append(E("tr", self.attrs("tr"), self._ws_between(cells)))
             return self._ws_between(out)
         if d.chance(1, 3):
